@@ -329,7 +329,7 @@ def main():
                 out.append("| " + " | ".join(c[:6]) + " |")
     # seeds
     out.append("\n### 9.8 Sensitivity: seeded changes and which check catches them\n")
-    out.append("Fresh sub-agents (given one property's text and a scratch worktree, nothing from /verif) produced changes that compile, pass the existing suite and break the property; each was confirmed here (demonstration passes on the current HEAD, fails with the change; `tools/revalidate_seeds.sh` repeats that after every fix commit). `tools/try_all_seeds.sh` applies each to a scratch worktree of /repo's HEAD and runs the property's registered quick command against that tree (`VERIF_REPO`). Three to four rounds of agents were run per property; second-round agents frequently re-invented a first-round change (the swapped provider/behaviour reset, the escalation-chain loop variable, the unlocked GetOrCreate, the hoisted completed-check of a future): such duplicates are stored like the others when their demonstration differs, and dropped when the patch is identical (C05 round 2). 'caught by' is the first signature reported.\n")
+    out.append("Fresh sub-agents (given one property's text and a scratch worktree, nothing from /verif) produced changes that compile, pass the existing suite and break the property; each was confirmed here (demonstration passes on the current HEAD, fails with the change; `tools/revalidate_seeds.sh` repeats that after every fix commit). `tools/try_all_seeds.sh` applies each to a scratch worktree of /repo's HEAD and runs the property's registered quick command against that tree (`VERIF_REPO`). Three to five rounds of agents were run per property (the fifth, for twelve properties, produced 24 changes: 11 identical to stored ones - several of them stored under a neighbouring property - and 13 new ones); second-round agents frequently re-invented a first-round change (the swapped provider/behaviour reset, the escalation-chain loop variable, the unlocked GetOrCreate, the hoisted completed-check of a future): such duplicates are stored like the others when their demonstration differs, and dropped when the patch is identical (C05 round 2). 'caught by' is the first signature reported.\n")
     rows = {}
     mp = f"{V}/seeded/MATRIX.tsv"
     if os.path.exists(mp):
